@@ -41,6 +41,9 @@ CONDS = [
     ("x == 1.5", "Literal[1.5]", [1.5]), ("x == b'a'", "Literal[b'a']", [b"a"]),
     ("x in (1, 2)", "Literal[1, 2]", [1, 2]), ("x not in (1, 2)", "Literal[1, 2]", [1, 2]), ("x in ('a',)", "Literal['a']", ["a"]), ("x in (E.X,)", "Literal[E.X]", []),
     ("x in (None, 1)", "Optional[Literal[1]]", [None, 1]), ("x not in (None,)", "None", [None]), ("x in (True, 'a')", "Literal[True, 'a']", [True, "a"]),
+    # other containers on the right of `in`: a string (substring test!), list, set, dict (keys), frozenset, range
+    ("x in 'ab'", "str", None), ("x not in 'ab'", "str", None), ("x in [1, 2]", "Literal[1, 2]", [1, 2]), ("x in {1, 'a'}", "Literal[1, 'a']", [1, "a"]),
+    ("x not in {'a': 1, None: 2}", "Optional[Literal['a']]", ["a", None]), ("x in frozenset({1, None})", "Optional[Literal[1]]", [1, None]), ("x in range(2)", "Literal[0, 1]", [0, 1]),
     ("x", None, None), ("not x", None, None), ("bool(x)", None, None),
     ("len(x) == 0", None, None), ("len(x) == 1", None, None), ("len(x) == 2", None, None), ("len(x) != 0", None, None), ("len(x) != 1", None, None),
     ("len(x) > 1", None, None), ("len(x) >= 1", None, None), ("len(x) < 2", None, None), ("len(x) <= 1", None, None), ("len(x) > 0", None, None),
